@@ -27,7 +27,7 @@ CLAIM = {
             "the prior variance k(x,x); mean_covariance = (K*b W)(K*b W)^T is symmetric positive semi-definite "
             "(unconditionally) and W solves (L L^T) W = input factor (full) resp. L^T W = diag(std) (latent) resp. the DTC system of "
             "the weights with the input factor as right-hand side (dtc_W_solves; per-cell sigma vector: (Kuu + jitter I + Kuf D^-1 "
-            "Kfu) W = Kuf D^-1/2, D = diag(max(sigma_i^2, jitter)), so W W^T = M D M^T, dtc_percell_W_solves), i.e. it is the "
+            "Kfu) W = Kuf D^-1 diag(sigma), D = diag(max(sigma_i^2, jitter)), so W W^T = M diag(sigma^2) M^T, dtc_percell_W_solves), i.e. it is the "
             "linear propagation of the stated input covariance through the mean; uncertainty is exactly the sum; predictors "
             "built without uncertainty refuse. Tied to /repo by comparing covariance / mean_covariance / uncertainty "
             "(diag and full) of the 9 classes with the model driver and by independent oracles (eigvalsh, refit with shifted "
@@ -177,12 +177,13 @@ def run_case(ctx, res, p):
             if p.get("std") is not None:
                 Fm = np.asarray(p["Lest"], float) * np.asarray(p["std"], float)[None, :]
             elif fam == "lm" and np.ndim(sigma) == 1:
-                # DTC with a per-cell sigma vector: the observations carry the noise D = diag(max(sigma_i^2, jitter)) the
-                # conditional mean is built with (the vector is floored at the jitter), so mean_covariance = J D J^T with
-                # J the linear map from the values to the predicted mean
+                # DTC with a per-cell sigma vector: the STATED noise is propagated, mean_covariance = J diag(sigma^2) J^T with J
+                # the linear map from the values to the predicted mean - also for entries below sqrt(jitter), whose floor
+                # max(sigma_i^2, jitter) only enters the weights (fixed defect: the floored value used to be propagated)
                 sv = np.asarray(sigma, float)
-                Fm = np.diag(np.sqrt(np.where(sv ** 2 < jitter, jitter, sv ** 2)))
+                Fm = np.diag(sv)
                 res.count("lm:per-cell-sigma:" + ("m<n" if nb < n else "m=n" if nb == n else "m>n"))
+                res.count("lm:per-cell-sigma:below-sqrt-jitter=%d" % min(int(np.sum(sv ** 2 < jitter)), 3))
             else:
                 Fm = np.diag(np.broadcast_to(np.asarray(sigma, float), (n,)))   # the noise acts on the n observations
             cols = [Fm[:, k] for k in range(Fm.shape[1])]
@@ -330,6 +331,11 @@ def gen_case(rng, stream):
                 Xu_sub = None
             nb = n
             sigma = loguniform(rng, 0.05, 1.0) if source == "sigma-scalar" else np.exp(rng.uniform(-3, 0, size=nb))
+            if source == "sigma-vector" and rng.random() < 0.4:
+                # exact and nearly exact cells: entries below sqrt(jitter) (their variance is floored at the jitter in the
+                # weights, the propagated noise stays the stated one)
+                mask = rng.random(nb) < 0.4
+                sigma = np.where(mask, rng.choice([0.0, 0.3, 0.9], size=nb) * np.sqrt(jitter), sigma)
     return {"op": "unc", "variant": variant, "family": family, "tree": tree, "X": X, "Xu": Xu, "Xu_sub": Xu_sub,
             "Y": Y, "Z": Z, "std": std, "Lest": Lest, "sigma": sigma, "mu": mu, "jitter": jitter,
             "y_is_mean": y_is_mean, "Xq": Xq, "source": source, "query": qk, "stream": stream}
